@@ -27,6 +27,7 @@ let rec quotas l = match l with
 let () =
   let cases = open_in Sys.argv.(1) in
   let c = ref counter0 and d = ref counter0 in
+  let reg : urec list option ref = ref None in
   let ups : (string, entry list) Hashtbl.t = Hashtbl.create 64 and downs : (string, entry list) Hashtbl.t = Hashtbl.create 64 in
   iter_lines cases (fun line ->
     match split_ws line with
@@ -58,4 +59,29 @@ let () =
       print_endline (match check_quota p (bytes_of_hex user) m (z_of_dec now) with
                      | QAllow -> "A" | QAllowErr -> "AE" | QRefuse -> "R" | QPanic -> "P")
     | ["KV"; days; mb] -> print_endline (bool_s (validate_quota (z_of_dec days) (z_of_dec mb)))
+    | "RS" :: nseg :: rest ->
+      let rec split i l acc = if i = 0 then (List.rev acc, l) else (match l with x :: t -> split (i - 1) t (x :: acc) | [] -> (List.rev acc, [])) in
+      let (segs, rest') = split (int_of_string nseg) rest [] in
+      let wants = (match rest' with _ :: w -> List.map int_of_string w | [] -> []) in
+      let st = ref { r_queue = List.map bytes_of_hex segs; r_unread = []; r_counted = Z0 } in
+      let outs = List.map (fun w ->
+        let (r, st') = read !st (nat_of_int w) in
+        st := st';
+        hex_of_bytes (returned r) ^ ":" ^ zs st'.r_counted) wants in
+      print_endline (String.concat " " outs)
+    | ["GN"] -> reg := None; print_endline "-"
+    | "GR" :: _ :: rest ->
+      let rec users l = match l with
+        | name :: cred :: nq :: r ->
+          let k = 2 * int_of_string nq in
+          let rec split i l acc = if i = 0 then (List.rev acc, l) else (match l with x :: t -> split (i - 1) t (x :: acc) | [] -> (List.rev acc, [])) in
+          let (qs, r') = split k r [] in
+          { ur_name = bytes_of_hex name; ur_cred = z_of_dec cred; ur_quotas = quotas qs } :: users r'
+        | _ -> [] in
+      reg := set_users !reg (users rest); print_endline "-"
+    | ["GP"; user] ->
+      print_endline (match policy_in_force !reg (bytes_of_hex user) with
+                     | None -> "none"
+                     | Some p -> String.concat " " (string_of_int (List.length p.p_quotas) ::
+                                   List.concat_map (fun q -> [zs q.q_days; zs q.q_mb]) p.p_quotas))
     | _ -> print_endline "?")
